@@ -141,8 +141,10 @@ type Exec struct {
 	track *writeTracker
 
 	symbolicSeen bool
+	fnStack      []string
 	stubs        map[string]value
 	inStub       map[string]bool
+	stubInner    map[string]bool
 	pending      []pendingOb
 	ios          *ioState
 	feasCache    map[[20]byte]bool
@@ -192,6 +194,7 @@ func (ex *Exec) newPath() {
 	ex.ios = nil
 	ex.stubs = map[string]value{}
 	ex.inStub = map[string]bool{}
+	ex.stubInner = map[string]bool{}
 	ex.pending = nil
 	ex.sched.reset(ex)
 }
@@ -614,6 +617,17 @@ func containsI(xs []int64, v int64) bool {
 	return false
 }
 
+// feasibleQuiet: is the current path condition satisfiable (unknown counts as yes)?
+func (ex *Exec) feasibleQuiet() (ok bool) {
+	defer func() {
+		if recover() != nil {
+			ok = true
+		}
+	}()
+	r := ex.query(nil, false, ex.FeasMs, 0)
+	return r.Status != "unsat"
+}
+
 // index checks and concretizes an index into a sequence of length n.
 func (ex *Exec) index(idx value, n int) int64 {
 	if s, ok := idx.(sym); ok {
@@ -768,12 +782,17 @@ func (ex *Exec) enterFn(fn *ssa.Function) {
 	if len(ex.loc) > 0 && !analysePure(fn).pure {
 		panic(abortSummary{"callee " + fn.String() + ": " + analysePure(fn).why})
 	}
+	ex.fnStack = append(ex.fnStack, fn.Name())
 	if fn.Pkg != nil && strings.HasPrefix(fn.Pkg.Pkg.Path(), "github.com/deadsy/sdfx") {
 		ex.FnSeen[fn.String()]++
 	}
 }
 
-func (ex *Exec) leaveFn(fn *ssa.Function) {}
+func (ex *Exec) leaveFn(fn *ssa.Function) {
+	if n := len(ex.fnStack); n > 0 {
+		ex.fnStack = ex.fnStack[:n-1]
+	}
+}
 
 type localResult struct {
 	pc  *smt.Term
@@ -1190,6 +1209,10 @@ func (ex *Exec) runPath(fn *ssa.Function) (stop bool) {
 			ex.NeedCase = &NeedCase{r.name, r.n}
 			stop = true
 		case Unsupported:
+			if len(ex.pc) > 0 && !ex.feasibleQuiet() {
+				ex.Infeasible++ // the limitation was met on a path whose condition is unsatisfiable
+				return
+			}
 			ex.Unsupp = append(ex.Unsupp, r.Msg)
 			stop = true
 		case nonFinite:
@@ -1212,6 +1235,10 @@ func (ex *Exec) runPath(fn *ssa.Function) (stop bool) {
 			ex.Unsupp = append(ex.Unsupp, "interpreter: "+r.Error()+"\n"+string(buf))
 			stop = true
 		case string:
+			if strings.HasPrefix(r, "unsupported") && len(ex.pc) > 0 && !ex.feasibleQuiet() {
+				ex.Infeasible++
+				return
+			}
 			ex.Unsupp = append(ex.Unsupp, r)
 			stop = true
 		default:
